@@ -6,12 +6,14 @@ import (
 	"fmt"
 	"os"
 
+	"verifharness/engines/c08"
 	"verifharness/engines/c14"
 	"verifharness/engines/c15"
 	"verifharness/gen"
 )
 
 var engines = map[string]func(*gen.Ctx) error{
+	"c08": c08.Run,
 	"c14": c14.Run,
 	"c15": c15.Run,
 }
